@@ -300,7 +300,84 @@ func propC16(c *ctx) error {
 	if err := c16Nested(c, r); err != nil {
 		return err
 	}
-	return c16Builtins(c, r)
+	if err := c16Builtins(c, r); err != nil {
+		return err
+	}
+	return c16Names(c, r)
+}
+
+// c16Names: histories over templates whose blocks use identifiers of every alphabet (non-ASCII letters, one-letter names,
+// names that differ only in case or by a combining mark), digits-only blocks and literal-only blocks next to them: a block
+// is re-evaluated against the data of EVERY execution, however constant its text may look.
+func c16Names(c *ctx, r *rng) error {
+	res := c.res
+	src := `<p :title="${问候 + '!'}"><em :text="${名字}">o</em><i :with="v := ${数 * 2}" :text="${v}">o</i><b :text="${é}${É}${x}${X}">o</b><u :if="${да}" :text="${ß}">o</u><s :else :text="${'lit'}${1 + 1}">o</s></p>`
+	mk := func() (types.Template, error) {
+		m := html.NewTplManager()
+		if err := m.Add("t", strings.NewReader(src)); err != nil {
+			return nil, err
+		}
+		return m.GetTemplate("t")
+	}
+	n := c.n(30, 1000)
+	for i := 0; i < n; i++ {
+		shared, err := mk()
+		if err != nil {
+			res.SelfTest = append(res.SelfTest, "C16 unicode-name template does not load: "+err.Error())
+			return nil
+		}
+		var hist []any
+		for s, steps := 0, 3+r.n(5); s < steps; s++ {
+			name, greet, num := fmt.Sprint("名", r.n(50)), fmt.Sprint("hi", r.n(50)), r.n(40)
+			e1, e2, x1, x2, yes, sz := fmt.Sprint("e", r.n(9)), fmt.Sprint("E", r.n(9)), r.n(9), r.n(9)+10, r.p(50), fmt.Sprint("ß", r.n(9))
+			data := map[string]any{"名字": name, "问候": greet, "数": num, "é": e1, "É": e2, "x": x1, "X": x2, "да": yes, "ß": sz}
+			missing := ""
+			if r.p(20) { // an execution whose data lacks one of the names fails — also after executions that had it
+				missing = []string{"名字", "数", "É"}[r.n(3)]
+				delete(data, missing)
+			}
+			tail := "<s>lit2</s>"
+			if yes {
+				tail = "<u>" + sz + "</u>"
+			}
+			want := fmt.Sprintf(`<p title="%s!"><em>%s</em><i>%d</i><b>%s%s%d%d</b>%s</p>`, greet, name, 2*num, e1, e2, x1, x2, tail)
+			t := shared
+			where := "one template object"
+			if r.p(30) {
+				t, _ = mk()
+				where = "a fresh manager in the same process"
+			}
+			hist = append(hist, J{"名字": name, "数": num, "missing": missing, "on": where})
+			var sb strings.Builder
+			errS := ""
+			func() {
+				defer func() {
+					if x := recover(); x != nil {
+						errS = fmt.Sprint("panic: ", x)
+					}
+				}()
+				if err := t.Execute(&sb, data); err != nil {
+					errS = "err"
+				}
+			}()
+			res.S3Checked++
+			res.count("unicode_name_steps")
+			wantErr := missing != ""
+			if wantErr {
+				if errS == "" {
+					res.violate(J{"sub": "names", "tpl": src, "history": hist}, "error: "+missing+" is not defined in this execution", sb.String(), fmt.Sprintf("execution #%d of a history: a name missing from THIS execution's data is resolved (from an earlier execution)", s+1))
+					break
+				}
+				continue
+			}
+			if errS != "" || sb.String() != want {
+				res.violate(J{"sub": "names", "tpl": src, "history": hist}, want, J{"out": sb.String(), "err": errS}, fmt.Sprintf("execution #%d of a history over non-ASCII names differs from what its own data gives", s+1))
+				break
+			}
+		}
+		res.eval("names|"+jstr(hist), true, J{"history": hist})
+	}
+	return nil
 }
 
 // c16Builtins: histories in which the data of one execution defines a name that is also a built-in function / constant
